@@ -54,6 +54,7 @@ class Ctx:
         self.coverage_actions = {}
         self.exhaustive = False
         self.checker_cmds = []
+        self.phases = []           # (what, events, seconds, started at) -- printed with VERIF_TIMING=1
         self.drift = {}            # trace module -> [(event id, what differs from the faithful model)]  (notes, never verdicts)
 
     # ------------------------------------------------------------------ model checking
@@ -109,6 +110,7 @@ class Ctx:
         Returns {id: (clause, kf)}."""
         if not events:
             return {}
+        t_val = time.time()
         self.new_ids(events)
         cfg_text = cfg_text or "SPECIFICATION TraceSpec\nCHECK_DEADLOCK FALSE\n"
         cfg = common.write_cfg(os.path.join(self.work, module + ".cfg"), cfg_text)
@@ -153,6 +155,7 @@ class Ctx:
                 raise MachineryError("trace validation of %s incomplete: %d of %d verdicts\n%s" %
                                      (p, len(got), len(sh), r.out[-3000:]))
             os.unlink(p)
+        self.phases.append(("validate " + module, len(events), round(time.time() - t_val, 1), round(t_val - self.t0, 1)))
         byid = {e["id"]: e for e in events}
         for i, (clause, kf, detail) in verdicts.items():
             e = byid[i]
@@ -201,6 +204,11 @@ class Ctx:
     # ------------------------------------------------------------------ finish
     def finish(self):
         wall = time.time() - self.t0
+        if os.environ.get("VERIF_TIMING"):
+            for ph in self.phases:
+                print("TIMING", ph)
+            for r in self.mc_runs:
+                print("TIMING mc", r.get("module"), r.get("config"), r.get("wall_s"))
         nviol = len(self.violations)
         cov = {"rule": self.rule, "samples": self.samples or ["(none recorded)"],
                "evaluations": self.evaluations, "distinct_nontrivial": len(self.distinct),
